@@ -17,3 +17,5 @@ open IrVerif.Scope
 #print axioms C17_consistent_ext
 #print axioms C17_total_ext
 #print axioms C17_ext_sharding_named
+#print axioms C17_ext_erasure_model
+#print axioms C17_ext_sharding_named_model
